@@ -179,6 +179,10 @@ func doExplore(t *testing.T, job *Job) {
 		}
 		seed := runSeedFor(job.BaseSeed, idx)
 		c := def.Generate(sim.NewRng(seed), job.Property, job.Tier, idx)
+		if os.Getenv("DSIM_DEBUG") != "" {
+			b, _ := json.Marshal(c)
+			fmt.Fprintf(os.Stderr, "DSIM_DEBUG idx=%d case=%s\n", idx, b)
+		}
 		res, rec := runOne(t, c, seed, nil, false, job.Trace)
 		res.Index = idx
 		ck.Runs++
